@@ -48,6 +48,21 @@ def bar_step(b, op):
     t = op[0]
     if t == "place":
         return b.place_notes(content(op[1]), num(op[2]))
+    if t == "place_raw":
+        # the content in the caller's own form, NOT pre-built by the harness: a name, a Note, lists of names / [name, octave]
+        # pairs / Notes, a mixture
+        form, x = op[1]
+        if form == "str":
+            raw = x
+        elif form == "note":
+            raw = Note(x[0], x[1])
+        elif form == "notes":
+            raw = [Note(n, o) for n, o in x]
+        elif form == "tuple":
+            raw = tuple(x)
+        else:                                   # "strs", "pairs", "mixed": plain (nested) lists
+            raw = [list(i) if isinstance(i, (list, tuple)) else i for i in x]
+        return b.place_notes(raw, num(op[2]))
     if t == "rest":
         return b.place_rest(num(op[1]))
     if t == "plus":
@@ -147,6 +162,23 @@ def run_track(instr, ops):
     out.append(track_out(t))
     return out
 
+def run_comps(n, ops):
+    """n compositions alive at the same time, the operations interleaved: [op, composition index, ...]"""
+    cs = [Composition() for _ in range(n)]
+    for op in ops:
+        tg, ci = op[0], op[1]
+        c = cs[ci]
+        try:
+            if tg == "add_track":
+                c.add_track(Track(INSTR[op[2]]()))
+            elif tg == "add_note":
+                c.add_note(content(op[2]))
+            elif tg == "select":
+                c.selected_tracks = list(op[2])
+        except Exception:
+            pass
+    return [[track_out(t) for t in c.tracks] for c in cs]
+
 def run_comp(ops):
     c = Composition()
     for op in ops:
@@ -163,6 +195,8 @@ def run_comp(ops):
                     c.add_note(x)
             elif tg == "select":
                 c.selected_tracks = list(op[1])
+            elif tg == "track_add":                       # music put on ONE track directly (not through the composition)
+                c.tracks[op[1]].add_notes(content(op[2]), num(op[3]))
         except Exception:
             pass
     return [track_out(t) for t in c.tracks]
